@@ -714,7 +714,9 @@ func ruleC05TunnelPeerID(w *World, r *Report) {
 	f := w.Fn(P, "pfcpiface.(*UP4).addOrUpdateGTPTunnelPeer")
 	fn := w.FuncName(f)
 	alloc := w.Fn(P, "pfcpiface.(*UP4).unsafeAllocateGTPTunnelPeerID")
-	release := w.Fn(P, "pfcpiface.(*UP4).unsafeReleaseAllocatedGTPTunnelPeer")
+	// the release helper is a convenience, not part of what is required: a tree that returns the ID where
+	// the helper was called has no helper, and then only the direct returns to the queue count below
+	release := w.FnOpt("pfcpiface.(*UP4).unsafeReleaseAllocatedGTPTunnelPeer")
 	acs := callsTo(f, alloc)
 	if len(acs) != 1 {
 		r.bad("R05.8", fn, "one allocation site of a tunnel-peer ID", w.Pos(f.Pos()), fmt.Sprintf("%d allocation calls", len(acs)))
@@ -757,14 +759,14 @@ func ruleC05TunnelPeerID(w *World, r *Report) {
 		if g == nil {
 			return false
 		}
-		if g == release {
+		if release != nil && g == release {
 			return registeredBefore(i)
 		}
 		if g.Parent() == f {
 			if appendsPool(g) {
 				return true
 			}
-			if len(callsTo(g, release)) > 0 {
+			if release != nil && len(callsTo(g, release)) > 0 {
 				return registeredBefore(i)
 			}
 		}
